@@ -449,7 +449,8 @@ fn print_ins(i: &Ins, st: &Style, rng: &mut Rng, lb: &mut LineBuf, line: usize) 
             Op::C(n) => {
                 let t = match csr_name(*n) {
                     Some(name) if rng.chance(0.7) => name.to_string(),
-                    _ => fmt_imm(*n as i32, pick_radix(*n as i32, st, rng), false),
+                    // (a CSR is named or numbered, never written as a character)
+                    _ => fmt_imm(*n as i32, match pick_radix(*n as i32, st, rng) { Radix::Char => Radix::Dec, r => r }, false),
                 };
                 let (c0, c1) = lb.push(&t);
                 ops.push(OpPrint { role: Role::Csr, c0, c1, text: t });
